@@ -212,6 +212,16 @@ def check_segment_predicates(ctx: Ctx) -> None:
             callees = sl.callees()
             is_tag = any(c in tag_preds for c in callees)
             is_block = any("block_content" in c or "block_heuristics" in c for c in callees)
+            if is_block:
+                # the heuristic is tolerated (recorded finding) only as far as a tag *adjacent to a line end* switches it on:
+                # whatever else feeds the disjunct (its enabling condition) must come from the tag-adjacency predicates alone
+                enabling = sorted(c for c in callees if c in prog.repo.functions and c not in tag_preds
+                                  and "block_content" not in c and "block_heuristics" not in c)
+                regex_ops = sorted({op for op, _ in sl.ops if op in (".search()", ".match()", ".finditer()", ".findall()", ".fullmatch()")})
+                by_adjacency = any(c in tag_preds for c in callees)
+                ctx.ob("R-LAYOUT-Y3", f"{fac.qual} [wrapper] :: block-content heuristic enabled by tag adjacency only", by_adjacency and not enabling and not regex_ops,
+                       "the list / table-row heuristic may be switched on only by a tag at the start or end of a line of the paragraph; enabled here through "
+                       f"{enabling + regex_ops or 'nothing that looks at line ends'}: a tag in the middle of a line would make unrelated soft breaks significant", where(w, t))
             # (keyed by what the disjunct consults, in source order - not by the names of the temporaries it is spelled with)
             what = "the block-content heuristics" if is_block else ("tag adjacency" if is_tag else "something else")
             ctx.ob("R-LAYOUT-Y3", f"{fac.qual} [wrapper] :: segment boundary disjunct consulting {what}", is_tag and not is_block,
